@@ -7,7 +7,7 @@ names = sorted(os.listdir(os.path.join(V, 'seeded')))
 only = sys.argv[1:]
 for n in names:
     d = os.path.join(V, 'seeded', n)
-    if not os.path.isdir(d) or (only and n not in only): continue
+    if not os.path.isdir(d) or not os.path.exists(os.path.join(d, 'meta.json')) or (only and n not in only): continue
     meta = json.load(open(os.path.join(d, 'meta.json')))
     checks = [meta['property']] + meta.get('also', [])
     p = subprocess.run([sys.executable, os.path.join(V, 'tools', 'eval_mutant.py'), d] + checks, capture_output=True, text=True)
